@@ -241,7 +241,7 @@ impl Tracee {
         let r = unsafe { libc::waitpid(pid, &mut status, libc::__WALL) };
         if r != pid || !libc::WIFSTOPPED(status) { return mach(format!("traced worker did not stop at exec (status {:x})", status)); }
         // a worker that moves itself into fresh namespaces forks twice during its setup: follow it to the last child
-        let follow: i64 = if spec.setup.userns { libc::PTRACE_O_TRACEFORK as i64 } else { 0 };
+        let follow: i64 = (if spec.setup.userns { libc::PTRACE_O_TRACEFORK as i64 } else { 0 }) | (if spec.setup.thread_decoy.is_some() { libc::PTRACE_O_TRACECLONE as i64 } else { 0 });
         if ptrace(libc::PTRACE_SETOPTIONS, pid, 0, (PTRACE_O_TRACESYSGOOD | PTRACE_O_EXITKILL | follow) as usize) != 0 { return mach("PTRACE_SETOPTIONS failed"); }
         // free-run to the BEGIN marker
         t.cont_until_marker()?;
@@ -260,8 +260,9 @@ impl Tracee {
             if libc::WIFSIGNALED(status) { self.finished = true; self.killed_by = Some(libc::WTERMSIG(status)); return Ok(false); }
             if libc::WIFSTOPPED(status) {
                 let s = libc::WSTOPSIG(status);
-                if (status >> 8) == (libc::SIGTRAP | (libc::PTRACE_EVENT_FORK << 8)) {
-                    // setup-time fork of a namespace-entering worker: let the parent run free (it only waits), trace the child
+                if (status >> 8) == (libc::SIGTRAP | (libc::PTRACE_EVENT_FORK << 8)) || (status >> 8) == (libc::SIGTRAP | (libc::PTRACE_EVENT_CLONE << 8)) {
+                    // setup-time fork of a namespace-entering worker, or the operation thread of a worker whose caller has a private
+                    // descriptor table: let the parent / leader run free (it only waits), trace the child / thread
                     let mut newpid: libc::c_ulong = 0;
                     if ptrace(libc::PTRACE_GETEVENTMSG, self.pid, 0, &mut newpid as *mut libc::c_ulong as usize) != 0 { return mach("PTRACE_GETEVENTMSG failed"); }
                     let newpid = newpid as i32;
